@@ -12,7 +12,8 @@ ID = 'C03'
 TECHNIQUE = 'exhaustive bounded-deviation exploration with state merging by compact() image; merged states must agree'
 RULE = ('states = E1 states of each module with compact() plus every character that compact() removes or '
         'folds for that module (discovered by probing the whole clean-up table and the alphabet) inserted at '
-        'every position of seeds, of rejected single-substitution neighbours and of short garbage, plus case '
+        'every position of seeds, of rejected single-substitution neighbours and of short garbage, runs of 2, 5 and 16 '
+        'of each such character at the start, middle and end, plus case '
         'flips; states are merged by compact(x); every class with >=2 members is compared. non-trivial = '
         'class with >=2 distinct members.')
 ASSUMPTIONS = ['the seven modules the statement excludes are skipped (isan, meid, us.ssn, us.itin, us.ein, us.atin, us.tin)',
@@ -116,6 +117,15 @@ def work(item):
                 transitions += 1
                 if t not in states:
                     states[t] = (1, 'decor:' + class_of(c), b)
+        # runs of one decoration character (a deviation repeated: zero padding, doubled separators) at the
+        # start, the middle and the end; compact() decides whether the run really is decoration
+        for c in [c for c in dq if ord(c) < 128] + [c for c in dq if ord(c) >= 128][:10]:
+            for i in sorted({0, len(b) // 2, len(b)}):
+                for run in (2, 5, 16):
+                    t = b[:i] + c * run + b[i:]
+                    transitions += 1
+                    if t not in states:
+                        states[t] = (run, 'decor-run:' + class_of(c), b)
         for t in [b.lower(), b.upper(), b.swapcase(), b.title()] + \
                 [b[:i] + b[i].swapcase() + b[i + 1:] for i in range(len(b)) if b[i].isalpha()] + \
                 [b[:i] + b[i:].swapcase() for i in range(1, len(b)) if b[i].isalpha()]:
